@@ -248,6 +248,46 @@ class Effects:
                                     self.witness.setdefault((q, r_), call)
                                 changed = True
 
+    def stored_aliases(self, fn: FuncInfo) -> Dict[str, Set[str]]:
+        """For a method (typically __init__): self.<attr> -> parameters whose object the attribute may
+        alias after the call (``self.points = np.asarray(points)``); fresh copies give no entry."""
+        params = fn.params
+        if fn.cls is None or not params:
+            return {}
+        selfname = params[0]
+        alias: Dict[str, Set[str]] = {p: {p} for p in params[1:]}
+        out: Dict[str, Set[str]] = {}
+
+        def block(stmts, strong):
+            for st in stmts:
+                if isinstance(st, (ast.Assign, ast.AnnAssign)):
+                    val = st.value
+                    if val is None:
+                        continue
+                    rs = self.roots(val, alias)
+                    tgts = st.targets if isinstance(st, ast.Assign) else [st.target]
+                    for t in tgts:
+                        if isinstance(t, ast.Name):
+                            if strong:
+                                alias[t.id] = set(rs)
+                            else:
+                                alias.setdefault(t.id, set())
+                                alias[t.id] |= rs
+                        elif isinstance(t, ast.Attribute) and isinstance(t.value, ast.Name) and t.value.id == selfname:
+                            keep = {r_ for r_ in rs if r_ in params}
+                            if keep:
+                                out.setdefault(f"self.{t.attr}", set()).update(keep)
+                            elif strong:
+                                out.pop(f"self.{t.attr}", None)
+                elif isinstance(st, (ast.If, ast.For, ast.While, ast.With, ast.Try)):
+                    for fld in ("body", "orelse", "finalbody"):
+                        block(getattr(st, fld, []) or [], False)
+                    for h in getattr(st, "handlers", []) or []:
+                        block(h.body, False)
+
+        block(fn.node.body, True)
+        return out
+
     # -- queries ------------------------------------------------------------------------------
     def mutated_params(self, fn: FuncInfo) -> Set[str]:
         ms = self.mutates.get(fn.qualname, set())
